@@ -301,7 +301,8 @@ func (x *Exec) loadPtr(st *State, p PtrV) Value {
 func (x *Exec) loadedFacts(st *State, t types.Type, v Value) {
 	bound := func(ref Term) Term {
 		// references read from the unmodified entry heap were allocated before the call
-		if st.alloc0.S != "" && !strings.Contains(ref.S, "@h") && !strings.Contains(ref.S, "@e") && !strings.Contains(ref.S, "(store") && !freshSymRe.MatchString(ref.S) {
+		entryShaped := strings.HasPrefix(ref.S, "(select ") || (strings.HasPrefix(ref.S, "in_") && !strings.ContainsAny(ref.S, " ("))
+		if entryShaped && st.alloc0.S != "" && !strings.Contains(ref.S, "@h") && !strings.Contains(ref.S, "@e") && !strings.Contains(ref.S, "(store") && !strings.Contains(ref.S, "alloc") && !freshSymRe.MatchString(ref.S) {
 			return st.alloc0
 		}
 		return st.alloc
